@@ -13,6 +13,14 @@ from mirsym import stdmodel
 SOLVER_TIMEOUT_MS = int(os.environ.get("VERIF_SOLVER_TIMEOUT_MS", "600000"))
 
 
+def _inconclusive(msg, e, I):
+    """Inconclusive that remembers the path on which a loop of the crate exceeded the engine's budget (see C03)"""
+    x = Inconclusive(msg)
+    if hasattr(e, "pc"):
+        x.budget_pc = list(e.pc) + list(getattr(I, "assumptions", []) or []) + list(getattr(I, "definitions", []) or [])
+    return x
+
+
 class Bench:
     def __init__(self, ctx, rep):
         self.ctx, self.rep = ctx, rep
@@ -46,7 +54,7 @@ class Bench:
         try:
             outs = I.call_fn(f, [make_input(spec)], St(), env)
         except Unsupported as e:
-            raise Inconclusive("unsupported construct while encoding parse(%s): %s" % (show_spec(spec), e))
+            raise _inconclusive("unsupported construct while encoding parse(%s): %s" % (show_spec(spec), e), e, I)
         self.fn_seen |= I.stats["fns"]
         self.intr_seen |= I.stats["intrinsics"]
         alts = []
@@ -68,7 +76,7 @@ class Bench:
         try:
             outs = I.call_fn(f, args, st or St(), b)
         except Unsupported as e:
-            raise Inconclusive("unsupported construct while encoding %s: %s" % (name, e))
+            raise _inconclusive("unsupported construct while encoding %s: %s" % (name, e), e, I)
         self.fn_seen |= I.stats["fns"]
         self.intr_seen |= I.stats["intrinsics"]
         alts = []
